@@ -1,0 +1,77 @@
+// Copyright 2021 TiKV Project Authors.
+//
+// Licensed under the Apache License, Version 2.0 (the "License");
+// you may not use this file except in compliance with the License.
+// You may obtain a copy of the License at
+//
+//     http://www.apache.org/licenses/LICENSE-2.0
+//
+// Unless required by applicable law or agreed to in writing, software
+// distributed under the License is distributed on an "AS IS" BASIS,
+// See the License for the specific language governing permissions and
+// limitations under the License.
+
+//go:build verif
+// +build verif
+
+// Machine-checked contracts for the dynamic configuration (checked by /verif/govc; comment-only file).
+package config
+
+// Surroundings not verified here: the scheduler registry lookup, label/URL syntax checks (deterministic, side-effect free).
+//@ opaque IsSchedulerRegistered, ValidateLabels, ValidateURLWithScheme
+
+//@ pure registered(name string) = gocallb("github.com/tikv/pd/server/config.IsSchedulerRegistered#0", name)
+//@ pure scheduleDomains(c *ScheduleConfig) = c.TolerantSizeRatio >= 0 && 0 <= c.LowSpaceRatio && c.LowSpaceRatio <= 1 && 0 <= c.HighSpaceRatio && c.HighSpaceRatio <= 1 && c.LowSpaceRatio > c.HighSpaceRatio
+
+// Values outside their domains are never accepted: space ratios in [0,1] with low > high, non-negative tolerant
+// ratio, every scheduler type registered.
+//@ func (*ScheduleConfig).Validate
+//@   props C18
+//@   ensures [domains] result == nil ==> scheduleDomains(c)
+//@   ensures [registered] result == nil ==> forall i :: 0 <= i && i < len(c.Schedulers) ==> registered(c.Schedulers[i].Type)
+//@   ensures [complete] scheduleDomains(c) && (forall i :: 0 <= i && i < len(c.Schedulers) ==> registered(c.Schedulers[i].Type)) ==> result == nil
+//@   loop 1 invariant forall i :: 0 <= i && i <= rangeindex ==> registered(c.Schedulers[i].Type)
+//@   modifies nothing
+
+// The isolation level is empty or one of the location labels.
+//@ func (*ReplicationConfig).Validate
+//@   props C18
+//@   ensures [isolation] result == nil ==> c.IsolationLevel == "" || (exists i :: 0 <= i && i < len(c.LocationLabels) && c.LocationLabels[i] == c.IsolationLevel)
+//@   loop 1 invariant foundIsolationLevel ==> (exists i :: 0 <= i && i <= rangeindex && c.LocationLabels[i] == c.IsolationLevel)
+//@   modifies nothing
+
+//@ func (*PDServerConfig).Validate
+//@   props C18
+//@   ensures [digit] result == nil ==> c.FlowRoundByDigit >= 0
+//@   modifies nothing
+
+//@ func NormalizeReplicationMode
+//@   props C18
+//@   ensures [modes] result == "" || result == "majority" || result == "dr-auto-sync"
+//@   modifies nothing
+
+// The served configuration: six sections, each holding a value of its own type.
+//@ pure optsTyped(o *PersistOptions) = o != nil && typeisptr(o.schedule.v, ScheduleConfig) && asptr(o.schedule.v, ScheduleConfig) != nil && typeisptr(o.replication.v, ReplicationConfig) && asptr(o.replication.v, ReplicationConfig) != nil && typeisptr(o.pdServerConfig.v, PDServerConfig) && asptr(o.pdServerConfig.v, PDServerConfig) != nil && typeisptr(o.replicationMode.v, ReplicationModeConfig) && asptr(o.replicationMode.v, ReplicationModeConfig) != nil && typeis(o.labelProperty.v, LabelPropertyConfig) && o.clusterVersion != nil
+
+// Persist writes the six sections as they are at that moment and touches none of them.
+//@ func (*PersistOptions).Persist
+//@   props C18
+//@   requires optsTyped(o) && storage != nil
+//@   ensures [saved] result == nil ==> last("kvSave") > old(evclock[0])
+//@   modifies ghost kvhas, ghost kvval
+
+// Clones handed to API handlers must not share backing arrays with the served configuration (a handler merges the
+// request body into the clone before validation). The engine models append as producing a fresh array, so the
+// absence of sharing is checked by the alias screen (option aliasscreen) instead.
+//@ func (*ScheduleConfig).Clone
+//@   props C18
+//@   option aliasscreen
+//@   ensures [copy] result != nil && result != c && result.LowSpaceRatio == c.LowSpaceRatio && result.HighSpaceRatio == c.HighSpaceRatio && result.TolerantSizeRatio == c.TolerantSizeRatio && len(result.Schedulers) == len(c.Schedulers) && result.SchedulersPayload == nil
+//@   ensures [schedulers] forall i :: 0 <= i && i < len(c.Schedulers) ==> result.Schedulers[i].Type == c.Schedulers[i].Type && result.Schedulers[i].Disable == c.Schedulers[i].Disable
+//@   ensures [served-untouched] forall i :: 0 <= i && i < len(c.Schedulers) ==> c.Schedulers[i].Type == old(c.Schedulers[i].Type) && c.Schedulers[i].Disable == old(c.Schedulers[i].Disable)
+
+//@ func (*ReplicationConfig).Clone
+//@   props C18
+//@   option aliasscreen
+//@   ensures [copy] result != nil && result != c && result.MaxReplicas == c.MaxReplicas && result.IsolationLevel == c.IsolationLevel && len(result.LocationLabels) == len(c.LocationLabels)
+//@   ensures [labels] forall i :: 0 <= i && i < len(c.LocationLabels) ==> result.LocationLabels[i] == c.LocationLabels[i]
